@@ -81,7 +81,7 @@ void harness(void)
 			sqfs_u8 *cdata = c->TBL_ARR.data;
 
 			VERIF_ASSERT(cdata != NULL &&
-				     !VERIF_SAME_OBJECT(cdata, odata),
+				     C19_DISTINCT(cdata, odata),
 				     C19_OB("fresh"));
 			VERIF_ASSERT(VERIF_R_OK(cdata, N * ESZ) &&
 				     cdata[k] == v, C19_OB("fresh"));
